@@ -36,6 +36,7 @@ OBLIGATIONS = [
     "Grog.C04.errchan_terminates",
     "Grog.C04.errchan_deadlock_witness",
     "Grog.C04.errchan_deadlock_witness2",
+    "Grog.C04.errchan_deadlock_general",
     "Grog.C04.lost_wakeup_witness",
 ]
 ASSUMPTIONS = [
